@@ -1360,6 +1360,10 @@ func nodeRun(c *verifeng.Chooser, f *nodeFix, env *verifhfs.Env, mode nodeMode, 
 		if h.safety() {
 			return
 		}
+		if sig, detail := verifbubble.LockOrder(); sig != "" {
+			c.Fail(mode.name, mode.name+":lock-order-inversion:"+sig, "%s", detail)
+			return
+		}
 		// the horizon is 300 s without progress, not 300 s in all
 		if _, bt, err := h.cs.BlockHeaders.ChainTip(); err == nil {
 			_, ft, _ := h.cs.RegFilterHeaders.ChainTip()
